@@ -134,5 +134,47 @@ def run(chk):
                'generated case', mismatches=bad,
                branches={k: sum(1 for c in cases if c['kind'] == k)
                          for k in ('random', 'uniform', 'steady')})
+    # sequences of steps on ONE Element object (timestep, fluxes and boundary kind vary from step to
+    # step, as SurfFlux drives it): every step must equal the model on the current temperatures and
+    # the energy oracle must hold step by step (state carried inside the object would show here)
+    nseq = 25 if chk.tier == 'quick' else 250
+    seq_pairs, seq_bad, nst = [], 0, 0
+    Element, Material = pkg.element.Element, pkg.material.Material
+    for _ in range(nseq):
+        base = gen_case(chk.rng, kind='random')
+        mats = [Material(k, c, 'm') for k, c in zip(base['k'], base['c'])]
+        el = Element(F(1, 10), F(9, 10), list(base['d']), mats, F(0), F(293), 1, 'e')
+        el.layerTemp = list(base['t'])
+        for step in range(chk.rng.randint(2, 5)):
+            cs = dict(base)
+            cs['t'] = list(el.layerTemp)
+            cs['dt'] = F(chk.rng.choice([1, 60, 300, 600, 900, 3600]))
+            cs['bc'] = chk.rng.choice(['flux', 'deep'])
+            cs['flx1'] = rq(chk.rng, -500, 900, 10)
+            cs['v2'] = rq(chk.rng, -300, 300, 10) if cs['bc'] == 'flux' else rq(chk.rng, 270, 300, 10)
+            if step == 2:   # materials may change between steps too
+                j = chk.rng.randrange(len(cs['d']))
+                cs['k'] = list(cs['k']); cs['k'][j] = cs['k'][j] * 2
+                el.layerThermalCond = list(cs['k'])
+                base = cs
+            bc = 1 if cs['bc'] == 'flux' else 2
+            xs = el.Conduction(cs['dt'], cs['flx1'], bc, cs['v2'] if bc == 2 else F(0),
+                               cs['v2'] if bc == 1 else F(0))
+            el.layerTemp = xs
+            nst += 1
+            seq_pairs.append((line_of(cs), 'ok ' + frac_list(xs)))
+            msg = oracle(cs, xs)
+            if msg:
+                seq_bad += 1
+                if seq_bad <= 2:
+                    chk.violation('impl-violation', 'energy oracle on a sequence of steps on one Element (step %d)' % step,
+                                  case=case_json(cs), observed=msg, expected='exact energy balance at every step')
+    chk.correspond('Element.Conduction(sequence on one object)~conduction', 'C11', seq_pairs,
+                   rule='2-5 successive Conduction calls on the SAME Element object with varying timestep, fluxes, '
+                        'boundary kind (and once a changed conductivity), temperatures fed back as SurfFlux does; each '
+                        'step compared with the stateless Lean model and with the energy oracle',
+                   classify=lambda line, impl: line.split(' bc=')[1].split(' ')[0])
+    chk.direct('energy-oracle(sequence on one object)', nst, nst, 'C11 statement at every step of every sequence',
+               mismatches=seq_bad)
     chk.assumptions.append('Element.Conduction is exercised through fracexec (exact rationals); '
                            'double rounding is outside the theorem')
